@@ -142,8 +142,111 @@ class NormSpec:
         return SReal(LOGPHI(z.t))
 
 
+    @staticmethod
+    def cdf(x, loc=0, scale=1):
+        z = _standardise(x, loc, scale)
+        cur().libcall('ss.norm.cdf', dict(x=x, loc=loc, scale=scale))
+        return _phi_of(z)
+
+
 class SsSpec:
     norm = NormSpec
+
+
+# ---- scipy.special.ndtr / log_ndtr, scipy.stats.norm.cdf and np.log of them.  logPhi is DEFINED as log o Phi over the reals, so the analysed
+# code may reach it as norm.logcdf(x, loc, scale), log_ndtr(z), np.log(ndtr(z)) or np.log(norm.cdf(...)): these are equal over the REALS ONLY
+# (assumption A-REAL).  In double precision Phi(z) underflows to 0 for z < about -38.5 while log Phi(z) is finite: that difference is outside
+# this tier and is the business of the tail stand-in (bounded/c10.py run_tails, oracle scipy.special.log_ndtr, relative tolerance).
+PHI = z3.Function('Phi', R, R)
+
+
+class PhiArr(ColArr):
+    """elementwise Phi(z); remembers z (attribute phi_arg) through squeeze()"""
+
+    def squeeze(self):
+        r = ColArr.squeeze(self)
+        a = self.phi_arg
+        if isinstance(r, SArr):
+            src = SArr(Cell(lambda i: a.at(i, 0), (a.shape[0],), 'real')) if (a.ndim == 2 and r.ndim == 1) else None
+            if src is None:
+                return r
+            out = PhiArr(Cell(lambda i: PHI(src.at(i)), src.shape, 'real'))
+            out.phi_arg = src
+            return out
+        out = PhiReal(lift(r).t)
+        out.phi_arg = SReal(a.at(0, 0))
+        return out
+
+
+class PhiReal(SReal):
+    pass
+
+
+def _phi_of(z):
+    if isinstance(z, SArr):
+        src = z.snapshot()
+        out = PhiArr(Cell(lambda *i: PHI(src.at(*i)), src.shape, 'real'))
+        out.phi_arg = src
+        return out
+    zt = lift(z)
+    out = PhiReal(PHI(zt.t))
+    out.phi_arg = zt
+    return out
+
+
+def _logphi_of(z):
+    if isinstance(z, SArr):
+        src = z.snapshot()
+        return ColArr(Cell(lambda *i: LOGPHI(src.at(*i)), src.shape, 'real'))
+    return SReal(LOGPHI(lift(z).t))
+
+
+def ndtr_spec(z):
+    cur().libcall('scipy.special.ndtr', dict(z=z))
+    return _phi_of(z)
+
+
+def log_ndtr_spec(z):
+    cur().libcall('scipy.special.log_ndtr', dict(z=z))
+    return _logphi_of(z)
+
+
+def log_spec(x):
+    """np.log; log(Phi(z)) = logPhi(z) by definition of logPhi (reals only, see above)"""
+    arg = getattr(x, 'phi_arg', None)
+    if arg is not None:
+        cur().libcall('np.log(Phi)', dict(z=arg))
+        return _logphi_of(arg)
+    return npspec.log(x)
+
+
+class SpecialSpec:
+    """scipy.special: ndtr, log_ndtr; anything else is outside the spec table"""
+    ndtr = staticmethod(ndtr_spec)
+    log_ndtr = staticmethod(log_ndtr_spec)
+
+
+def scipy_names(vc, path='elfi/methods/posteriors.py'):
+    """names the analysed MODULE binds to scipy.special / its ndtr, log_ndtr (import statements read from the tree) -> env entries"""
+    import ast
+    from pyvc import instrument
+    src, tree = instrument._parse(path, vc.repo)
+    out = {}
+    table = {'ndtr': ndtr_spec, 'log_ndtr': log_ndtr_spec}
+    for n in tree.body:
+        if isinstance(n, ast.ImportFrom) and n.module == 'scipy.special':
+            for a in n.names:
+                if a.name in table:
+                    out[a.asname or a.name] = table[a.name]
+        elif isinstance(n, ast.ImportFrom) and n.module == 'scipy':
+            for a in n.names:
+                if a.name == 'special':
+                    out[a.asname or a.name] = SpecialSpec
+        elif isinstance(n, ast.Import):
+            for a in n.names:
+                if a.name == 'scipy.special' and a.asname:
+                    out[a.asname] = SpecialSpec
+    return out
 
 
 # ====================================================================================== _within_bounds
@@ -241,7 +344,9 @@ class UnnormLogLik(Contract):
         self.label = case
 
     def env(self, vc):
-        return {'ss': SsSpec, 'np': npspec.module(extra={'sqrt': sqrt_pos})}
+        e = scipy_names(vc)
+        e.update({'ss': SsSpec, 'np': npspec.module(extra={'sqrt': sqrt_pos, 'log': log_spec})})
+        return e
 
     def setup(self, vc):
         x, d, n, row, scalar = make_query(vc, self.case)
